@@ -714,6 +714,12 @@ func (c *diskCache) get(ctx context.Context, kind cache.EntryKind, hash string, 
 	}
 	verifPoint("get.proxy.afterCopy", key, sizeOnDisk)
 
+	if (kind != cache.CAS || legacy) && sizeOnDisk != foundSize {
+		// The backend delivered fewer or more bytes than it announced.
+		return nil, -1, internalErr(fmt.Errorf("expected %d bytes from the proxy backend, received %d",
+			foundSize, sizeOnDisk))
+	}
+
 	rcf, err := os.Open(blobFile)
 	if err != nil {
 		return nil, -1, internalErr(err)
